@@ -84,6 +84,9 @@ func cfgCase(cw *caseWriter, c rscp.ClientConfig, label string) {
 		prop = "FAIL * creating a client panics"
 	} else if w := cfgExpected(c); w != "" && !strings.HasPrefix(got, w) {
 		prop = "FAIL C16 documented outcome is `" + w + "…`, got `" + trunc(got, 100) + "`"
+		if strings.Contains(label, "key") {
+			prop += " ;; FAIL C06 a legal key (" + fmt.Sprintf("%q", trunc(c.Key, 40)) + ") is not used as configured: " + trunc(got, 80)
+		}
 	}
 	cw.add(op, got, "N cfg "+label, prop)
 }
